@@ -78,22 +78,63 @@ def check(run, driver):
     for it in range(60 if thorough else 20):
         d = int(rng.integers(1, 5)); k = int(rng.integers(1, 6)); N = int(rng.integers(k + 2, 16))
         X = rng.standard_normal((N, d))      # (un-quantised: a quantised grid creates exact distance ties, outside the tie-free quantifier)
-        rec = {"l2": [], "svd": [], "hyp": []}
+        rec = {"l2": [], "svd": [], "hyp": [], "S": [], "inside": []}
         real_l2, real_svd, real_hyp = E.l2dist, np.linalg.svd, E.hyperellipsoid_check
 
         def l2(a, b):
             rec["l2"].append((np.array(a, copy=True), np.array(b, copy=True))); return real_l2(a, b)
 
         def svd(a, *aa, **kk):
-            rec["svd"].append(np.array(a, copy=True)); return real_svd(a, *aa, **kk)
+            rec["svd"].append(np.array(a, copy=True)); out = real_svd(a, *aa, **kk); rec["S"].append(np.array(out[1], copy=True)); return out
 
         def hyp(sv, z):
-            rec["hyp"].append(np.array(z, copy=True)); return real_hyp(sv, z)
+            rec["hyp"].append(np.array(z, copy=True)); out = real_hyp(sv, z); rec["inside"].append(bool(out)); return out
 
         with patched(E, "l2dist", l2), patched(np.linalg, "svd", svd), patched(E, "hyperellipsoid_check", hyp):
             E.geometric_knn_entropy(X, cdist(X, X), k)
         run.case("seams", [N, d, k, float(X[0, 0])], d >= 2 and k >= 2)
         meta.append(({"N": N, "d": d, "k": k, "X": X}, rec)); reqs.append({"op": "geom_parts", "X": mat(X), "k": k})
+    # ---- spectral tie (CEModel/GeomSpectral.lean): the singular values LAPACK returned and the ellipsoid decisions taken from them
+    #      against EXACT rational invariants of the same local configuration: e_m(S^2) = sum of principal m-minors of the Gram
+    #      matrix (all m: determines S), and inside <=> z^T G^-1 z <= 1 (Cramer) when G is invertible (k >= d)
+    import itertools
+    spec = driver.run_sharded([{"op": "geom_spectral", "X": q["X"], "k": q["k"]} for q in reqs])
+    n_sv = n_ell = n_skip = 0
+    for (case, rec), r in zip(meta, spec):
+        if "ok" not in r:
+            run.corr_fail("spectral", case, r, None, "driver error"); continue
+        N, k, d = case["N"], case["k"], case["d"]
+        if len(rec["S"]) != N or len(rec["inside"]) != N * k:
+            continue    # reported by the seam tie below
+        for i, p in enumerate(r["ok"]):
+            S = rec["S"][i].astype(float)
+            lam = [float(v) ** 2 for v in S] + [0.0] * max(0, d - len(S))
+            well = len(S) > 0 and S[0] > 0 and (len(S) < d or S[-1] > 1e-4 * S[0])
+            e_exact = [float(unval(v)) for v in p["e"]]
+            if well and k >= d:
+                for m in range(1, d + 1):
+                    em = math.fsum(math.prod(c) for c in itertools.combinations(lam, m))
+                    n_sv += 1
+                    if abs(em - e_exact[m - 1]) > 1e-8 * max(abs(e_exact[m - 1]), 1e-300):
+                        run.prop_fail("the singular values used by the local correction are not those of the local configuration (elementary symmetric polynomial of S^2 differs from the exact sum of principal minors of Y^T Y)",
+                                      {**case, "sample": i}, {"clause": "reference", "part": "singular-values"}, {"m": m, "e_m_of_S2": em, "exact": e_exact[m - 1], "S": S.tolist()})
+                        break
+            elif any(any(not (x >= 0) for x in [float(v)]) for v in S) or any(S[j] < S[j + 1] for j in range(len(S) - 1)):
+                run.prop_fail("singular values not non-negative and descending", {**case, "sample": i}, {"clause": "reference", "part": "singular-values"}, {"S": S.tolist()})
+            else:
+                n_skip += 1
+            for jj, qv in enumerate(p["q"]):
+                if qv is None or not well:
+                    n_skip += 1; continue
+                qf = float(unval(qv))
+                if abs(qf - 1.0) <= 1e-7 * max(1.0, qf):
+                    n_skip += 1; continue
+                n_ell += 1
+                if rec["inside"][i * k + jj] != (qf <= 1.0):
+                    run.prop_fail("ellipsoid membership decided by hyperellipsoid_check differs from the exact quadratic form z^T (Y^T Y)^-1 z <= 1",
+                                  {**case, "sample": i, "neighbour": jj}, {"clause": "reference", "part": "ellipsoid"}, {"exact_q": qf, "inside": rec["inside"][i * k + jj]})
+        run.traces += 1
+    run.extra["spectral_tie"] = {"symmetric_polynomials_compared": n_sv, "ellipsoid_decisions_compared": n_ell, "skipped_ill_conditioned_or_singular": n_skip}
     for (case, rec), r in zip(meta, driver.run_sharded(reqs)):
         if "ok" not in r:
             run.corr_fail("seams", case, r, None, "driver error"); continue
